@@ -47,6 +47,8 @@ struct Cfg {
     fixed_step: Option<f64>,
     /// warmup length handed to the adaptation strategy (2: no mass-matrix change within a history)
     num_tune: u64,
+    /// start far in the tail (4 standard deviations out): the first trajectories LOSE much energy
+    far_start: bool,
 }
 
 fn target(dim: usize) -> Target {
@@ -130,8 +132,12 @@ struct MirrorDraw {
     transform_changed: bool,
 }
 
-fn start_pos(dim: usize) -> Vec<f64> {
-    (0..dim).map(|i| 0.35 + 0.4 * i as f64).collect()
+fn start_pos_of(c: &Cfg) -> Vec<f64> {
+    if c.far_start {
+        // target(dim): mean 0.2 - 0.3 i, sd 0.8 + 0.9 i
+        return (0..c.dim).map(|i| (0.2 - 0.3 * i as f64) + 4.0 * (0.8 + 0.9 * i as f64)).collect();
+    }
+    (0..c.dim).map(|i| 0.35 + 0.4 * i as f64).collect()
 }
 
 fn new_math(c: &Cfg) -> (M, SpyRc) {
@@ -182,7 +188,7 @@ fn run_real(c: &Cfg, ctx: &mut Ctx) -> Result<(Vec<DrawObs>, Vec<RngCall>), Stri
     let rng = LoggingRng { inner: rng, log: raw_log.clone() };
     let r = with_strategy!(c, math, |strategy, ham, statopt| {
         let mut chain = NutsChain::new(math, ham, strategy, nuts_options(c), rng, 0, statopt);
-        let sp = start_pos(c.dim);
+        let sp = start_pos_of(c);
         match std::panic::catch_unwind(std::panic::AssertUnwindSafe(|| chain.set_position(&sp))) {
             Ok(Ok(())) => {}
             Ok(Err(e)) => return Err(format!("set_position: {e:#}")),
@@ -285,7 +291,7 @@ fn run_mirror(c: &Cfg, stream: &[RngCall]) -> Result<Vec<MirrorDraw>, String> {
         let mut strategy = strategy;
         let mut ham = ham;
         let mut options = nuts_options(c);
-        let sp = start_pos(c.dim);
+        let sp = start_pos_of(c);
         strategy.init(&mut math, &mut options, &mut ham, &sp, &mut rng).map_err(|e| format!("mirror init: {e}"))?;
         let mut state = ham.init_state(&mut math, &sp).map_err(|e| format!("mirror init_state: {e}"))?;
         let rec = Rc::new(RefCell::new(Recorded::default()));
@@ -327,7 +333,7 @@ fn judge(c: &Cfg, real: &[DrawObs], mirror: &[MirrorDraw], choices: &[u32], p: &
         p.violation(format!("C03/{oracle}/{}", c.name), detail, replay.clone());
     };
     let tgt = target(c.dim);
-    let mut prev = start_pos(c.dim);
+    let mut prev = start_pos_of(c);
     for (d, (r, m)) in real.iter().zip(mirror).enumerate() {
         let (mind, maxd) = effective_depths(&m.options, m.step_size_used);
         let ro = RefOptions { maxdepth: maxd, mindepth: mind, max_energy_error: c.max_energy_error, dim: c.dim };
@@ -498,6 +504,7 @@ pub fn acceptance_statistic_partial(tier: Tier) -> Partial {
                             reject_budget: 1,
                             fixed_step,
                             num_tune: 2,
+                            far_start: false,
                         });
                     }
                 }
@@ -559,6 +566,55 @@ pub fn acceptance_statistic_partial(tier: Tier) -> Partial {
     total.into_inner().unwrap()
 }
 
+/// The divergence rule of one integration step, probed directly: a step is a divergence when its
+/// energy error relative to the baseline it is given is ABOVE max_energy_error (or not finite) -
+/// a step that ends far BELOW the baseline is an ordinary state. The baseline is an argument of
+/// `Hamiltonian::leapfrog`, so both sides can be produced at will.
+fn divergence_rule_probe(p: &mut Partial) {
+    use nuts_rs::verif::{Direction, Hamiltonian, LeapfrogResult};
+    use rand::SeedableRng;
+    struct Nop;
+    impl<MM: nuts_rs::Math, P: nuts_rs::verif::Point<MM>> nuts_rs::verif::Collector<MM, P> for Nop {}
+    for kind in [KineticEnergyKind::Euclidean, KineticEnergyKind::ExactNormal] {
+        for dim in [1usize, 2, 17] {
+            for dir in [Direction::Forward, Direction::Backward] {
+                for (offset, limit) in [(-10.0, 0.5), (-2000.0, 1000.0), (-0.06, 0.05), (10.0, 0.5), (2000.0, 1000.0), (0.06, 0.05), (0.0, 0.5)] {
+                    let (mut math, spy) = SpyMath::new(Dens::new(target(dim.max(1))));
+                    let mut mm = nv::diag_mass_matrix_new(&mut math, false);
+                    nv::diag_mass_matrix_set(&mut mm, &mut math, &faer::Col::from_fn(dim, |_| 1.0), &faer::Col::from_fn(dim, |_| 0.0));
+                    let mut h = TransformedHamiltonian::new(&mut math, mm, kind);
+                    *h.step_size_mut() = 0.01;
+                    let x: Vec<f64> = (0..dim).map(|i| 0.3 + 0.1 * i as f64).collect();
+                    let Ok(mut st) = h.init_state(&mut math, &x) else { continue };
+                    spy.borrow_mut().gaussian_script.push_back((0..dim).map(|i| 0.4 - 0.05 * i as f64).collect());
+                    let mut rng = rand::rngs::ChaCha8Rng::seed_from_u64(1);
+                    if h.initialize_trajectory(&mut math, &mut st, true, &mut rng).is_err() {
+                        continue;
+                    }
+                    // energy error of the step = (energy after) - baseline ~ -offset
+                    let baseline = st.point().energy() - offset;
+                    let res = h.leapfrog(&mut math, &st, dir, 1.0, baseline, limit, &mut Nop);
+                    p.evaluations += 1;
+                    let want_divergence = offset > limit;
+                    let got = match res {
+                        LeapfrogResult::Ok(_) => Some(false),
+                        LeapfrogResult::Divergence(_) => Some(true),
+                        LeapfrogResult::Err(_) => None,
+                    };
+                    if got != Some(want_divergence) {
+                        p.violation(
+                            format!("C03/divergence-rule/{kind:?}/dim{dim}/{dir:?}/energy-error{offset}-limit{limit}"),
+                            format!("a step whose energy error relative to its baseline is about {offset} with max_energy_error {limit}: divergence reported = {got:?}, expected {want_divergence}"),
+                            json!({"kind": format!("{kind:?}"), "dim": dim, "energy_error": offset, "max_energy_error": limit}),
+                        );
+                    }
+                    p.class(format!("divergence-rule:{kind:?}:{}", if want_divergence { "above" } else if offset < 0.0 { "below" } else { "inside" }));
+                }
+            }
+        }
+    }
+}
+
 pub fn run(tier: Tier, _replay: Option<String>) -> i32 {
     let mut report = Report::new(
         "C03",
@@ -610,9 +666,38 @@ pub fn run(tier: Tier, _replay: Option<String>) -> i32 {
                                 fault,
                                 reject_budget: tier.pick(2, 3),
                                 num_tune: 2,
+                            far_start: false,
                             });
                             }
                         }
+                    }
+                }
+            }
+        }
+    }
+    // a start far in the tail with a tight energy-error limit: steps that LOSE more energy than the
+    // limit are ordinary trajectory states (the divergence test is one-sided)
+    for kind in [KineticEnergyKind::Euclidean, KineticEnergyKind::ExactNormal] {
+        for dim in [1usize, 2] {
+            for maxdepth in [2u64, 3] {
+                for mee in [0.05, 0.5] {
+                    for fixed_step in [Some(0.25), Some(0.9), Some(1.3), None] {
+                        cfgs.push(Cfg {
+                            fixed_step,
+                            name: format!("diag-{kind:?}-dim{dim}-maxdepth{maxdepth}-mee{mee}-far-start-step{fixed_step:?}"),
+                            lowrank: false,
+                            kind,
+                            dim,
+                            maxdepth,
+                            mindepth: 0,
+                            target_time: None,
+                            max_energy_error: mee,
+                            n_draws: 2,
+                            fault: None,
+                            reject_budget: tier.pick(2, 3),
+                            num_tune: 2,
+                            far_start: true,
+                        });
                     }
                 }
             }
@@ -643,6 +728,7 @@ pub fn run(tier: Tier, _replay: Option<String>) -> i32 {
                             fault: None,
                             reject_budget: 1,
                             num_tune: 10,
+                            far_start: false,
                         });
                     }
                 }
@@ -699,5 +785,10 @@ pub fn run(tier: Tier, _replay: Option<String>) -> i32 {
         }
         report.merge(p);
     });
+    {
+        let mut p = Partial::new();
+        divergence_rule_probe(&mut p);
+        report.merge(p);
+    }
     report.finish()
 }
